@@ -8,6 +8,9 @@
 //   direct_qr_check arith order m n A Qk R     real amgcl::detail::QR<Q|double>::factorize    (Qk, R = its output, embedded by generate)
 //   direct_qr_model order m n A | direct_qr_solve_model order m n A b    real QR<Q> vs the loop-by-loop Lean model (exact)
 //   direct_qr_solve_check arith order m n A b x   real QR<Q|double>::solve                    (x = its output, embedded by generate)
+//   direct_qr_seq ns (kind order m n A [b])*       ONE real QR<Q> object reused for a sequence of factorize (kind 0) / solve
+//                                                  (kind 1) calls of changing shape, vs the Lean model that threads the members
+//                                                  tau/f/q through the calls; oracle: every step equals a fresh object + exact QR
 // For the V-grade ops the op line carries the implementation's output; `execute` re-runs the real code and fails the
 // oracle if the embedded output is not what the code returns now.
 //
@@ -173,6 +176,25 @@ static Result run_sky(Cur &c, long kind) {
     // oracle 3: profile is well formed
     const std::vector<int> &sp = (*S).*Rob<TPtr<Sky>>::ptr;
     for (long i = 0; i < n; ++i) if (sp[i+1] < sp[i] || sp[i+1] - sp[i] > i) r.fail("profile: height of column i exceeds i");
+    // explicitly stored exact zeros (off the diagonal): inside / outside the profile of the reordered non-zeros
+    {
+        std::vector<long> inv(n); for (long i = 0; i < n; ++i) inv[perm[i]] = i; bool any = false, outside = false;
+        for (long i = 0; i < n; ++i) for (auto j = A.ptr[i]; j < A.ptr[i+1]; ++j) if (A.col[j] != i && amgcl::math::is_zero(A.val[j])) {
+            any = true; long a = inv[i], bb = inv[A.col[j]], hi = std::max(a, bb), d = hi - std::min(a, bb); if (d > sp[hi+1] - sp[hi]) outside = true; }
+        if (any) r.tag("stored_zero"); if (outside) r.tag("stored_zero_outside_profile");
+        // oracle 4 (given ordering): a stored exact zero denotes nothing -- the object built from the matrix without its stored
+        // off-diagonal zeros is constructed as well and returns the same x
+        if (any && kind == 1) {
+            BMat<V> A0; A0.n = n; A0.m = n; A0.ptr.push_back(0);
+            for (long i = 0; i < n; ++i) { for (auto j = A.ptr[i]; j < A.ptr[i+1]; ++j) if (A.col[j] == i || !amgcl::math::is_zero(A.val[j])) { A0.col.push_back(A.col[j]); A0.val.push_back(A.val[j]); } A0.ptr.push_back((ptrdiff_t)A0.col.size()); }
+            amgcl::backend::crs<V, ptrdiff_t, ptrdiff_t> Ac0((size_t)n, (size_t)n, A0.ptr, A0.col, A0.val);
+            try {
+                Sky S0(Ac0);
+                std::vector<R> xz(n, VT<V>::poison_rhs()); S0(b, xz);
+                for (long i = 0; i < n; ++i) for (int a = 0; a < N; ++a) if (!qeq(VT<V>::rat(xz[i], a), VT<V>::rat(x[i], a))) r.fail("skyline_lu: stored exact zeros change the solution");
+            } catch (const std::exception &) { r.fail("skyline_lu: precondition thrown only after the stored exact zeros were dropped"); }
+        }
+    }
     Line l; l << "ok"; l << (size_t)(n + 1); for (long i = 0; i <= n; ++i) l << (long)sp[i];
     print_vals<V>(l, (*S).*Rob<TL<Sky>>::ptr); print_vals<V>(l, (*S).*Rob<TU<Sky>>::ptr); print_vals<V>(l, (*S).*Rob<TD<Sky>>::ptr);
     print_rhsvec<V>(l, x); print_rhsvec<V>(l, y1);
@@ -214,6 +236,33 @@ static Dense dident(long k) { Dense I(k, std::vector<Q>(k)); for (long i = 0; i 
 
 static std::vector<Q> qr_vals(Cur &c, long cnt) { std::vector<Q> v(cnt); for (auto &x : v) x = c.rat(); return v; }
 
+// exact-root family (factorize): the diagonal of the exact Cholesky factor of A^T A (first k columns) consists of dyadics with <= 32
+// fractional bits <=> every square root the algorithm takes is exact.  Computed independently: squared pivots of Gaussian
+// elimination on A^T A.
+static bool exact_root_factorize(const Dense &dA, long k, long n) {
+    Dense G = dmul(dtrans(dA), dA);
+    for (long i = 0; i < k; ++i) {
+        Q p = G[i][i];            // squared norm of the i-th orthogonalised column
+        if (p.v < 0) return false;
+        Q s = vq::sqrt(p); if ((s * s).v != p.v) return false;
+        if (p != 0) for (long a = i + 1; a < n; ++a) { Q f = G[a][i] / p; if (f != 0) for (long b = i; b < n; ++b) G[a][b] -= f * G[i][b]; }
+        else {
+            // a vanishing orthogonalised column: the reflector is the identity and one row is "lost", so the later norms are
+            // no longer the Gram pivots.  The promise is kept only if nothing is left at all (all remaining columns vanish too).
+            for (long a = i; a < n; ++a) for (long b = i; b < n; ++b) if (G[a][b] != 0) return false;
+            return true;
+        }
+    }
+    return true;
+}
+// exact-root family (solve, full rank): all Gram pivots of the tall orientation are positive exact squares
+static bool exact_root_solve(const Dense &dA, long m, long n) {
+    Dense B = m >= n ? dA : dtrans(dA); Dense G = dmul(dtrans(B), B); long k = std::min(m, n);
+    for (long i = 0; i < k; ++i) { Q p = G[i][i]; Q s = vq::sqrt(p); if (p.v <= 0 || (s * s).v != p.v) return false;
+        for (long a = i + 1; a < k; ++a) { Q f = G[a][i] / p; if (f != 0) for (long bb = i; bb < k; ++bb) G[a][bb] -= f * G[i][bb]; } }
+    return true;
+}
+
 static Result run_qr_check(Cur &c) {
     Result r;
     long arith = c.nat(), order = c.nat(), m = c.nat(), n = c.nat();
@@ -237,21 +286,7 @@ static Result run_qr_check(Cur &c) {
     // is exact, fine; the requirement "exact" is imposed when the exact Gram-Schmidt norms are such dyadics (below).
     bool exactfam = false;
     if (arith == 0) {
-        // exact-root family: the diagonal of the exact Cholesky factor of A^T A (first k columns) consists of dyadics with <= 32 fractional bits
-        // <=> every square root the algorithm takes is exact.  Computed independently: squared pivots of Gaussian elimination on A^T A.
-        Dense G = dmul(dtrans(dA), dA); exactfam = true;
-        for (long i = 0; i < k && exactfam; ++i) {
-            Q p = G[i][i];            // squared norm of the i-th orthogonalised column
-            if (p.v < 0) { exactfam = false; break; }
-            Q s = vq::sqrt(p); if ((s * s).v != p.v) { exactfam = false; break; }
-            if (p != 0) for (long a = i + 1; a < n; ++a) { Q f = G[a][i] / p; if (f != 0) for (long b = i; b < n; ++b) G[a][b] -= f * G[i][b]; }
-            else {
-                // a vanishing orthogonalised column: the reflector is the identity and one row is "lost", so the later norms are
-                // no longer the Gram pivots.  The promise is kept only if nothing is left at all (all remaining columns vanish too).
-                for (long a = i; a < n; ++a) for (long b = i; b < n; ++b) if (G[a][b] != 0) exactfam = false;
-                break;
-            }
-        }
+        exactfam = exact_root_factorize(dA, k, n);
         if (exactfam && !exact) r.fail("every square root is exact, but A != Q*R or Q^T Q != I exactly");
     } else {
         if (!tol) r.fail("double: max(|A - QR|, |Q^T Q - I|) > 2^-28");
@@ -287,9 +322,7 @@ static Result run_qr_solve_check(Cur &c) {
     Q dev(0); if (have_ref) for (long i = 0; i < n; ++i) if (qabs(ax[i] - ref[i]) > dev) dev = qabs(ax[i] - ref[i]);
     bool exactfam = false;
     if (arith == 0 && fullrank) {
-        Dense B = m >= n ? dA : dtrans(dA); Dense G = dmul(dtrans(B), B); long k = std::min(m, n); exactfam = true;
-        for (long i = 0; i < k && exactfam; ++i) { Q p = G[i][i]; Q s = vq::sqrt(p); if (p.v <= 0 || (s * s).v != p.v) { exactfam = false; break; }
-            for (long a = i + 1; a < k; ++a) { Q f = G[a][i] / p; if (f != 0) for (long bb = i; bb < k; ++bb) G[a][bb] -= f * G[i][bb]; } }
+        exactfam = exact_root_solve(dA, m, n);
         if (exactfam && (!exact || dev != 0)) r.fail("every square root is exact, but QR::solve is not the exact least-squares / minimum-norm solution");
     }
     if (arith == 1 && fullrank) {
@@ -299,6 +332,70 @@ static Result run_qr_solve_check(Cur &c) {
     r.out = (Line() << exact << tol).get();
     r.nontrivial = m * n >= 2;
     r.tag(arith == 0 ? "qrs_rational" : "qrs_double"); r.tag(m >= n ? "lsq" : "minnorm"); if (exactfam) r.tag("exact_roots"); if (!fullrank) r.tag("rank_deficient");
+    return r;
+}
+
+// ------------------------------------------------------------------ QR: one object reused for a sequence of calls
+// direct_qr_seq ns (kind order m n A [b])*: kind 0 = factorize (result: factorised buffer, Q(i,j) for the full m x n), kind 1 =
+// solve (result: x).  The members tau / f / q of the object survive from call to call (std::vector::resize keeps the old
+// content); the contract is that no call depends on them: every step must return exactly what a fresh object returns, and
+// on the exact-root family the exact QR / least-squares promises hold as for a fresh object.
+static Result run_qr_seq(Cur &c) {
+    Result r;
+    long ns = c.nat(); if (ns < 1 || ns > 16) throw bad_input("steps");
+    struct Step { long kind, order, m, n; std::vector<Q> A, b; };
+    std::vector<Step> st(ns);
+    for (auto &s : st) {
+        s.kind = c.nat(); s.order = c.nat(); s.m = c.nat(); s.n = c.nat();
+        if (s.kind < 0 || s.kind > 1 || s.order < 0 || s.order > 1 || s.m < 1 || s.n < 1 || s.m > 64 || s.n > 64) throw bad_input("shape");
+        s.A = qr_vals(c, s.m * s.n); if (s.kind == 1) s.b = qr_vals(c, s.m);
+    }
+    c.expect_end();
+    amgcl::detail::QR<Q> qr; Line l;
+    // (M, N) handed to compute(): the wide solve factorises the transposed matrix
+    long entries = 0; bool shrink = false, exroots = false; std::vector<std::pair<long,long>> seen;
+    for (long si = 0; si < ns; ++si) {
+        const Step &s = st[si]; const long m = s.m, n = s.n, k = std::min(m, n); entries += m * n;
+        const std::string at = " (step " + std::to_string(si) + " of a reused QR object)";
+        const auto ord = s.order == 0 ? amgcl::detail::row_major : amgcl::detail::col_major;
+        std::vector<Q> buf(m * n);
+        for (long i = 0; i < m; ++i) for (long j = 0; j < n; ++j) buf[s.order == 0 ? i * n + j : j * m + i] = s.A[i * n + j];
+        const long M = (s.kind == 1 && m < n) ? n : m, N = (s.kind == 1 && m < n) ? m : n;
+        for (auto &p : seen) if (M <= N && std::min(p.first, p.second) >= M && p.first > M) shrink = true;
+        seen.push_back({M, N});
+        Dense dA = rm_dense(m, n, s.A);
+        if (s.kind == 0) {
+            std::vector<Q> fbuf = buf;
+            qr.factorize((int)m, (int)n, buf.data(), ord);
+            std::vector<Q> qq, Qk, R; for (long i = 0; i < m; ++i) for (long j = 0; j < n; ++j) qq.push_back(qr.Q((int)i, (int)j));
+            for (long i = 0; i < m; ++i) for (long j = 0; j < k; ++j) Qk.push_back(qr.Q((int)i, (int)j));
+            for (long i = 0; i < k; ++i) for (long j = 0; j < n; ++j) R.push_back(qr.R((int)i, (int)j));
+            // oracle 1: a fresh object
+            { amgcl::detail::QR<Q> fr; fr.factorize((int)m, (int)n, fbuf.data(), ord); bool same = true;
+              for (long i = 0; i < m * n; ++i) if (!qeq(fbuf[i], buf[i])) same = false;
+              for (long i = 0; i < m; ++i) for (long j = 0; j < n; ++j) if (!qeq(fr.Q((int)i, (int)j), qq[i * n + j])) same = false;
+              if (!same) r.fail("QR::factorize: R / Q differ from what a fresh QR object returns for the same matrix" + at); }
+            // oracle 2: exact factorisation on the exact-root family
+            { Dense dQ = rm_dense(m, k, Qk), dR = rm_dense(k, n, R);
+              bool exact = max_abs_diff(dA, dmul(dQ, dR)) == 0 && max_abs_diff(dmul(dtrans(dQ), dQ), dident(k)) == 0;
+              if (exact_root_factorize(dA, k, n)) { exroots = true; if (!exact) r.fail("every square root is exact, but A != Q*R or Q^T Q != I exactly" + at); } }
+            l << buf << qq;
+        } else {
+            std::vector<Q> fbuf = buf, x(n), fx(n);
+            qr.solve((int)m, (int)n, buf.data(), s.b.data(), x.data(), ord);
+            { amgcl::detail::QR<Q> fr; fr.solve((int)m, (int)n, fbuf.data(), s.b.data(), fx.data(), ord);
+              for (long i = 0; i < n; ++i) if (!qeq(fx[i], x[i])) { r.fail("QR::solve: x differs from what a fresh QR object returns for the same system" + at); break; } }
+            if (dense_rank(dA) == k && exact_root_solve(dA, m, n)) {
+                std::vector<Q> ref; bool have = false;
+                if (m >= n) have = dense_solve(dmul(dtrans(dA), dA), dmv(dtrans(dA), s.b), ref);
+                else { std::vector<Q> w; have = dense_solve(dmul(dA, dtrans(dA)), s.b, w); if (have) ref = dmv(dtrans(dA), w); }
+                exroots = true;
+                if (have) for (long i = 0; i < n; ++i) if (!qeq(ref[i], x[i])) { r.fail("every square root is exact, but QR::solve is not the exact least-squares / minimum-norm solution" + at); break; }
+            }
+            l << x;
+        }
+    }
+    r.out = l.get(); r.nontrivial = ns >= 2 && entries >= 4; r.tag("qr_seq"); if (exroots) r.tag("exact_roots"); if (shrink) r.tag("qr_reuse_shrinks_to_square_or_wide");
     return r;
 }
 
@@ -352,6 +449,8 @@ static Result execute(const Toks &t) {
         return run_qr_check(c);
     } else if (op == "direct_qr_solve_check") {
         return run_qr_solve_check(c);
+    } else if (op == "direct_qr_seq") {
+        return run_qr_seq(c);
     } else if (op == "direct_qr_model" || op == "direct_qr_solve_model") {
         // exact correspondence with the loop-by-loop Lean model of QR (real scalars, rsqrt): factorised buffer + Q(i,j), solve
         const bool slv = op == "direct_qr_solve_model";
@@ -417,6 +516,31 @@ static std::vector<std::vector<char>> random_pattern(Rng &rng, long n, int dens,
     for (long i = 0; i < n; ++i) for (long j = 0; j < n; ++j) if (i != j && comp[i] == comp[j] && rng.range(0, 99) < dens) { pat[i][j] = 1; if (sym) pat[j][i] = 1; }
     return pat;
 }
+// explicitly stored exact zeros at positions that are absent from the pattern (fixed-stencil assembly with vanishing couplings):
+// every absent off-diagonal position with probability pct/100, at least one if there is an absent position.  They fall inside
+// or outside the profile of the non-zeros, whatever the ordering makes of them.
+static Mat with_stored_zeros(Rng &rng, const Mat &A, int pct) {
+    auto rows = to_rows(A); long n = A.n, added = 0; std::vector<std::pair<long,long>> absent;
+    for (long i = 0; i < n; ++i) { std::set<long> have; for (auto &cv : rows[i]) have.insert(cv.first);
+        for (long j = 0; j < A.m; ++j) if (j != i && !have.count(j)) { if (rng.range(0, 99) < pct) { rows[i].push_back({j, Q(0)}); ++added; } else absent.push_back({i, j}); } }
+    if (!added && !absent.empty()) { auto &ij = absent[rng.next() % absent.size()]; rows[ij.first].push_back({ij.second, Q(0)}); }
+    for (auto &r : rows) std::sort(r.begin(), r.end(), [](const std::pair<long,Q> &a, const std::pair<long,Q> &b) { return a.first < b.first; });
+    return from_rows(n, A.m, rows);
+}
+// 5-point (or 3-point, ny = 1) stencil on an nx x ny grid, every stencil neighbour STORED; each edge weight vanishes with
+// probability zx (x-edges) / zy (y-edges) per cent: zy = 100 is the fully anisotropic stencil with zero y-coupling.
+// Symmetric M-matrix + positive shift on every row (SPD), or upwind convection added (non-symmetric, diagonally dominant).
+static Mat gen_stencil_zeros(Rng &rng, long nx, long ny, int zx, int zy, bool nonsym) {
+    long n = nx * ny; std::vector<std::map<long,Q>> r(n);
+    for (long k = 0; k < n; ++k) r[k][k] = Q::frac(rng.range(1, 4), 2);
+    auto edge = [&](long a, long b, int z) { Q w = rng.range(0, 99) < z ? Q(0) : Q::frac(rng.range(1, 4), rng.range(1, 2));
+        Q c = (nonsym && w != 0) ? Q::frac(rng.range(0, 3), 2) : Q(0);
+        r[a][b] -= w; r[b][a] -= w + c; r[a][a] += w; r[b][b] += w + c; };
+    for (long j = 0; j < ny; ++j) for (long i = 0; i < nx; ++i) { long k = j * nx + i; if (i + 1 < nx) edge(k, k + 1, zx); if (j + 1 < ny) edge(k, k + nx, zy); }
+    std::vector<std::vector<std::pair<long,Q>>> rows(n);
+    for (long i = 0; i < n; ++i) for (auto &cv : r[i]) rows[i].push_back({cv.first, cv.second});
+    return from_rows(n, n, rows);
+}
 static void emit_sky(Rng &rng, std::vector<std::string> &lines, Mat A, int ordering /*0 cmk, 1 identity, 2 random, 3 reverse*/) {
     long n = A.n; if (rng.coin(1, 3)) { auto rows = to_rows(A); shuffle_rows_inplace(rng, rows); A = from_rows(n, n, rows); }
     std::vector<long> perm; long kind = 1;
@@ -429,7 +553,7 @@ static void emit_sky(Rng &rng, std::vector<std::string> &lines, Mat A, int order
     lines.push_back(l.get());
 }
 // block matrix: a strictly row diagonally dominant (or SPD) scalar matrix of order 2n viewed as 2x2 blocks on a block pattern
-static void emit_skyb(Rng &rng, std::vector<std::string> &lines, long n, const std::vector<std::vector<char>> &pat, int mode, int ordering) {
+static void emit_skyb(Rng &rng, std::vector<std::string> &lines, long n, const std::vector<std::vector<char>> &pat, int mode, int ordering, int zpct = 0) {
     long N = 2 * n; Dense S(N, std::vector<Q>(N));
     auto present = [&](long I, long J) { return I == J || pat[I][J] || (mode == 1 && pat[J][I]); };
     if (mode == 1) {     // SPD: symmetric M-matrix on the expanded pattern
@@ -443,7 +567,8 @@ static void emit_skyb(Rng &rng, std::vector<std::string> &lines, long n, const s
         if (z > 0 || n == 1 || rng.coin()) { for (long J = 0; J < n; ++J) if (J != z) for (int a = 0; a < 2; ++a) for (int b = 0; b < 2; ++b) { if (rng.coin()) S[2*z+a][2*J+b] = Q(0); } }
     }
     BMat<B22> A; A.n = n; A.m = n; A.ptr.push_back(0);
-    for (long I = 0; I < n; ++I) { std::vector<long> cols; for (long J = 0; J < n; ++J) if (present(I, J)) cols.push_back(J);
+    // zpct: a block position absent from the pattern is stored as an explicit zero block with that probability (per cent)
+    for (long I = 0; I < n; ++I) { std::vector<long> cols; for (long J = 0; J < n; ++J) if (present(I, J) || (zpct > 0 && rng.range(0, 99) < zpct)) cols.push_back(J);
         if (rng.coin(1, 3)) for (size_t k = cols.size(); k > 1; --k) std::swap(cols[k-1], cols[rng.next() % k]);
         for (long J : cols) { B22 b; bool allz = true; for (int a = 0; a < 2; ++a) for (int c = 0; c < 2; ++c) { b(a, c) = S[2*I+a][2*J+c]; if (b(a, c) != 0) allz = false; }
             if (allz && mode == 2 && rng.coin()) continue;   // a zero block is sometimes stored explicitly, sometimes absent
@@ -507,6 +632,12 @@ static void generate_inner(Rng &rng, const Opts &o, std::vector<std::string> &li
             if (n <= 3 || rng.coin(1, 8)) emit_sky(rng, lines, pattern_matrix(rng, n, pat, 2), (int)rng.range(0, 2));
             if (sym && (n <= 3 || rng.coin(1, 8))) emit_sky(rng, lines, pattern_matrix(rng, n, pat, 3), (int)rng.range(0, 2));
             if (n <= 2 || (n == 3 && (T || rng.coin(1, 4))) || (n == 4 && rng.coin(1, 64))) for (int mode = 0; mode < 3; ++mode) emit_skyb(rng, lines, n, pat, mode, (int)rng.range(0, 2));
+            // explicitly stored exact zeros at absent positions (inside and outside the profile), all four orderings
+            if (n >= 2 && (n <= 3 || rng.coin(1, 4))) for (int rep = 0; rep < 2; ++rep) {
+                int mode = rng.coin(1, 3) ? 1 : (rng.coin(1, 4) ? 2 : 0);
+                emit_sky(rng, lines, with_stored_zeros(rng, pattern_matrix(rng, n, pat, mode), (int)rng.range(20, 90)), rep == 0 ? 0 : (int)rng.range(1, 3));
+            }
+            if (n == 2 || (n == 3 && (T || rng.coin(1, 4))) || (n == 4 && rng.coin(1, 64))) emit_skyb(rng, lines, n, pat, (int)rng.range(0, 1), (int)rng.range(0, 2), (int)rng.range(30, 90));
             if (n <= 3 || rng.coin(1, 16)) {   // Cuthill-McKee on every small pattern, both variants
                 Mat A = pattern_matrix(rng, n, pat, 2);
                 for (long rev = 0; rev < 2; ++rev) { { Line p; p << "direct_cmk_check" << rev; put_mat(p, A); p << std::vector<long>(); pending(p.get()); }
@@ -524,6 +655,23 @@ static void generate_inner(Rng &rng, const Opts &o, std::vector<std::string> &li
         else if (fam == 5) A = pattern_matrix(rng, std::min<long>(n, 8), random_pattern(rng, std::min<long>(n, 8), (int)rng.range(20, 70), rng.coin(), 1), 2);  // may hit zero pivots
         else A = pattern_matrix(rng, std::min<long>(n, 10), random_pattern(rng, std::min<long>(n, 10), (int)rng.range(20, 60), true, rng.range(1, 2)), 3);       // singular Laplacian
         emit_sky(rng, lines, A, (int)rng.range(0, 3) == 3 ? 3 : (int)rng.range(0, 2));
+        // stored exact zeros beyond 3x3: stencils with vanishing couplings (incl. the fully anisotropic 5-point stencil and the 1D
+        // chain), banded matrices with far stored zeros, random matrices with random stored zeros
+        {
+            int zf = (int)rng.range(0, 3); Mat Z;
+            if (zf == 0) { long nx = rng.range(2, T ? 6 : 4), ny = rng.range(1, T ? 5 : 4); bool xz = rng.coin(1, 4); int z = rng.coin() ? 100 : (int)rng.range(20, 80);
+                Z = gen_stencil_zeros(rng, nx, ny, xz ? z : (int)rng.range(0, 1) * 30, xz ? (int)rng.range(0, 1) * 30 : z, rng.coin(1, 3)); }
+            else if (zf == 1) { long nz = rng.range(4, T ? 24 : 12); Mat B = rng.coin() ? gen_spd(rng, nz, 0) : gen_convdiff(rng, nz);   // chain + a few far stored zeros
+                auto rows = to_rows(B); long cnt = rng.range(1, 4);
+                for (long q = 0; q < cnt; ++q) { long i = rng.range(0, B.n - 1), j = rng.range(0, B.n - 1); bool have = i == j; for (auto &cv : rows[i]) if (cv.first == j) have = true;
+                    if (!have) { rows[i].push_back({j, Q(0)}); if (rng.coin()) { bool h2 = false; for (auto &cv : rows[j]) if (cv.first == i) h2 = true; if (!h2) rows[j].push_back({i, Q(0)}); } } }
+                Z = from_rows(B.n, B.n, rows); }
+            else { long nz = rng.range(4, T ? 20 : 12); int md = (int)rng.range(0, 2);
+                Z = with_stored_zeros(rng, pattern_matrix(rng, nz, random_pattern(rng, nz, (int)rng.range(5, 40), rng.coin(), rng.range(1, 2)), md == 2 ? (rng.coin(1, 4) ? 2 : 0) : md), (int)rng.range(2, 30)); }
+            emit_sky(rng, lines, Z, (int)rng.range(0, 3));
+            if (k % 2 == 0) emit_sky(rng, lines, Z, 0);     // the constructor's own Cuthill-McKee ordering sees the stored zeros as edges
+        }
+        if (k % 3 == 1) { long nb = rng.range(2, T ? 8 : 5); emit_skyb(rng, lines, nb, random_pattern(rng, nb, (int)rng.range(10, 50), rng.coin(), rng.range(1, 2)), (int)rng.range(0, 1), (int)rng.range(0, 2), (int)rng.range(10, 60)); }
         if (k % 3 == 0) { long nb = rng.range(2, T ? 10 : 6); emit_skyb(rng, lines, nb, random_pattern(rng, nb, (int)rng.range(10, 60), rng.coin(), rng.range(1, 2)), (int)rng.range(0, 9) == 0 ? 2 : (int)rng.range(0, 1), (int)rng.range(0, 2)); }
         // Cuthill-McKee on larger patterns (values irrelevant): non-symmetric, disconnected, empty rows
         { long nc = rng.range(1, T ? 60 : 30); Mat P = gen_sparse(rng, nc, nc, (int)rng.range(0, 30));
@@ -570,6 +718,22 @@ static void generate_inner(Rng &rng, const Opts &o, std::vector<std::string> &li
           long mg = rng.range(1, 5), ng = rng.range(1, 5); std::vector<Q> G = dyadic_vals(rng, mg * ng, (int)rng.range(0, 40));
           { Line l; l << "direct_qr_model" << order << mg << ng; for (auto &v : G) l << v; lines.push_back(l.get()); }
           { Line l; l << "direct_qr_solve_model" << order << mg << ng; for (auto &v : G) l << v; for (auto &v : dyadic_vals(rng, mg, 10)) l << v; lines.push_back(l.get()); } }
+        // ONE QR object reused for 2..5 calls of changing shape (factorize / solve; tall, square, wide; both storage orders): the
+        // first call is often tall with a large min(m,n) so that later square / wide calls meet members tau, f, q that are longer
+        // than they need and still hold the previous values
+        for (int rep = 0; rep < 2; ++rep) {
+            long ns = rng.range(2, 5), smx = 6; Line l; l << "direct_qr_seq" << ns; bool descend = rng.coin();
+            for (long si = 0; si < ns; ++si) {
+                long kind = rng.range(0, 1), ord = rng.range(0, 1), sm, sn;
+                if (si == 0 && descend) { sm = rng.range(3, smx); sn = rng.range(2, sm); if (rng.coin(1, 4)) std::swap(sm, sn); }
+                else { sm = rng.range(1, smx); sn = rng.range(1, smx); if (rng.coin(1, 3)) sn = sm; }
+                std::vector<Q> S;
+                if (rng.coin(1, 4)) { sm = std::min<long>(sm, 4); sn = std::min<long>(sn, 4); S = dyadic_vals(rng, sm * sn, (int)rng.range(0, 30)); }
+                else S = exact_root_matrix(rng, sm, sn, rng.coin(1, 4));
+                l << kind << ord << sm << sn; for (auto &v : S) l << v; if (kind == 1) for (auto &v : dyadic_vals(rng, sm, 10)) l << v;
+            }
+            lines.push_back(l.get());
+        }
         // solve: exact-root full-rank systems at Q (tall: least squares, wide: minimum norm), well-conditioned dyadic systems in double
         { long mm = rng.range(1, mx), nn = rng.range(1, std::min<long>(mm, 7)); std::vector<Q> B = exact_root_matrix(rng, mm, nn, false);
           std::vector<Q> b = dyadic_vals(rng, mm, 10); emit_qr_solve(lines, 0, order, mm, nn, B, b);
@@ -588,6 +752,9 @@ static void generate_inner(Rng &rng, const Opts &o, std::vector<std::string> &li
     lines.push_back("direct_qr_check 0 0 2 2 1 0 0 1 1 0 0 1 1 0 0");                            // too few entries
     lines.push_back("direct_qr_model 0 2 2 1 0 0");                                                // too few entries
     lines.push_back("direct_qr_solve_model 2 2 2 1 0 0 1 1 1");                                    // storage order out of range
+    lines.push_back("direct_qr_seq 0");                                                            // no step
+    lines.push_back("direct_qr_seq 2 0 0 2 2 1 0 0 1 1 0 2 1 1 2");                                // second step: right-hand side too short
+    lines.push_back("direct_qr_seq 1 2 0 1 1 1");                                                  // step kind out of range
 }
 
 static void generate(Rng &rng, const Opts &o, std::vector<std::string> &lines) {
